@@ -52,7 +52,14 @@ func (e Extensions) GetInt(key string) (int, bool) {
 	}
 
 	if v, ok := e[realKey]; ok {
-		if r, rOk := v.(float64); rOk {
+		switch r := v.(type) {
+		case float64:
+			return int(r), true
+		case int: // values set by a program rather than decoded from JSON
+			return r, true
+		case int64:
+			return int(r), true
+		case int32:
 			return int(r), true
 		}
 	}
